@@ -277,6 +277,44 @@ def h_membership(eng, edit, pre="all"):
     check("after")
 
 
+def h_membership_text(eng, sep):
+    """the same closure when groups, 'using' lists and the system are written in a definition
+    file; the names in a 'using' list are separated by a comma with any blanks around it"""
+    base = {"ga": "ua", "gb": "ub", "gc": "uc", "gd": "ud"}
+    plan = {0: ["ga", "gb"], 1: ["gb2", "gc"], 2: ["gc2", "gd"]}
+    mem = {i: {u for u in plan[i] if bool(eng.boolean(f"m{i}{u}"))} for i in range(3)}
+    uses = {i: {j for j in range(i + 1, 3) if bool(eng.boolean(f"e{i}{j}"))} for i in range(3)}
+    sys_groups = {i for i in range(3) if bool(eng.boolean(f"s{i}"))}
+    lines = ["ua = [da]", "ub = [db]", "uc = [dc]", "ud = [dd]"]
+    for i in (2, 1, 0):
+        head = f"@group G{i}" + (" using " + sep.join(f"G{j}" for j in sorted(uses[i])) if uses[i] else "")
+        lines += [head] + [f"    {u} = {i + 2} * {base[u[:2]]}" for u in sorted(mem[i])] + ["@end"]
+    lines += ["@system S" + (" using " + sep.join(f"G{j}" for j in sorted(sys_groups)) if sys_groups else ""), "@end"]
+    ureg = pint.UnitRegistry(lines, non_int_type=eng.ntype)
+
+    def closure(i):
+        out = set(mem[i])
+        for j in uses[i]:
+            out |= closure(j)
+        return out
+
+    everything = set(base.values()) | set().union(*mem.values())
+    want = set()
+    for i in sys_groups:
+        want |= closure(i)
+    if not sys_groups:
+        want = everything  # a system declared without 'using' uses the root group
+    for i in range(3):
+        eng.prove(set(ureg.get_group(f"G{i}").members) == closure(i), f"text:group-members-G{i}")
+    eng.prove(set(ureg.get_system("S").members) == want, "text:system-members")
+    for u in sorted(everything):
+        got = {str(x) for x in ureg.get_compatible_units(u, "S")}
+        dim_mates = {m for m in everything if base.get(m[:2], m) == base.get(u[:2], u)}
+        eng.prove(got == (dim_mates & want), f"text:compatible-in-system:{u}")
+        eng.prove(set(ureg.Unit(u).systems) == ({"S"} if u in want else set()), f"text:Unit.systems:{u}")
+    eng.prove(set(dir(ureg.sys.S)) >= want, "text:sys-attributes")
+
+
 def _reach(uses, i):
     seen = set()
     todo = [i]
@@ -348,6 +386,8 @@ def cases(tier, seed):
     for e in edits:
         for pre in ("all", "G0", "S", "compat") + (("G1", "none") if big else ()):
             out.append(Case("H14.c", f"{e[0]}:{e[1]}:{e[2]}:pre={pre}", M, "h_membership", {"edit": list(e), "pre": pre}, opts={"max_paths": 5000}, validate=2 if pre == "all" else 0, weight=40.0))
+    for sep in (", ", ",", " , ", ",  ", " ,") if big else (", ", ",", ",  "):
+        out.append(Case("H14.c", f"text:sep={sep!r}", M, "h_membership_text", {"sep": sep}, opts={"max_paths": 5000}, validate=2, weight=40.0))
     out.append(Case("H14.c-default", "members", M, "h_default_membership", {}, kind="conc"))
     out.append(Case("H14.d", "sys-attr", M, "h_sys_attr", {}, validate=1))
     return out
